@@ -267,6 +267,27 @@ Definition create_signature (sign_ok : bool) (pk : privkind) (h : N) : res (N * 
 (* external operations performed by NewFromSignedJSON, in order *)
 Inductive jstep := JVerify | JParse.
 
+(* ------------------------------------------------------------------------------------------
+   Verifier OBJECTS used over a history of calls: ct.SignatureVerifier{PubKey} (from
+   NewSignatureVerifier or a literal), ctutil.LogInfo{Verifier, lastSTH, ...}, and the package
+   itself (tls.VerifySignature, ctutil.VerifySCT, loglist3.NewFromSignedJSON called again and
+   again in one process).  The state the Go code keeps: the public key, fixed at construction,
+   and - LogInfo only - the last STH, which no verification path reads.  There is no memo of
+   earlier verdicts in the code; that absence is what the history cases measure.
+   ------------------------------------------------------------------------------------------ *)
+Record vstate := { vs_key : key; vs_last : option (N * bytes) (* lastSTH: tree size, root *) }.
+
+Inductive vop :=
+| OpVerify (data : bytes) (sg : dsig)   (* SignatureVerifier.VerifySignature / tls.VerifySignature with the object's key *)
+| OpSct (s : sct) (e : tentry)          (* SignatureVerifier.VerifySCTSignature; LogInfo.VerifySCTSignature (which first
+                                           overwrites the leaf's timestamp - not a signed field - with the SCT's);
+                                           ctutil.VerifySCTWithVerifier after createLeaf *)
+| OpSth (s : sth)                       (* SignatureVerifier.VerifySTHSignature *)
+| OpUtil (s : sct) (e : tentry)         (* ctutil.VerifySCT(the object's key, chain, sct), non-compliant keys not allowed *)
+| OpJson (data raw : bytes)             (* loglist3.NewFromSignedJSON(data, raw, the object's key) *)
+| OpTouch (last : option (N * bytes)).  (* any operation that verifies no signature: LogInfo.SetSTH / LastSTH /
+                                           VerifyInclusion*; leaves lastSTH as given; its result is not modelled *)
+
 Section Oracles.
   (* crypto.Hash id (as produced by the generated table: MD5=2 .. SHA512=7) -> message -> digest *)
   Variable digest : Z -> bytes -> bytes.
@@ -353,5 +374,29 @@ Section Oracles.
     | KRSA _ _ => go SIG_RSA
     | KECDSA _ _ => go SIG_ECDSA
     | _ => (Err, [])                                (* unsupported public key type *)
+    end.
+
+  (* one call on an object holding key [k] *)
+  Definition vcall (k : key) (op : vop) : option (res unit) :=
+    match op with
+    | OpVerify d sg => Some (verify k d sg)
+    | OpSct s e => Some (verify_sct k s e)
+    | OpSth s => Some (verify_sth k s)
+    | OpUtil s e => Some (util_verify_sct false k s e)
+    | OpJson d raw => Some (fst (new_from_signed_json k d raw))
+    | OpTouch _ => None
+    end.
+
+  Definition vnext (st : vstate) (op : vop) : vstate :=
+    match op with
+    | OpTouch l => {| vs_key := vs_key st; vs_last := l |}
+    | _ => st
+    end.
+
+  (* the answers of one object over a history of calls, in order *)
+  Fixpoint run_history (st : vstate) (ops : list vop) : list (option (res unit)) :=
+    match ops with
+    | [] => []
+    | op :: r => vcall (vs_key st) op :: run_history (vnext st op) r
     end.
 End Oracles.
